@@ -5,6 +5,7 @@ import (
 	"bytes"
 	"crypto/sha256"
 	"encoding/json"
+	"errors"
 	"fmt"
 	"os"
 	"os/exec"
@@ -17,8 +18,10 @@ import (
 	"time"
 
 	"github.com/goreleaser/nfpm/v2"
+	"github.com/goreleaser/nfpm/v2/files"
 
 	"verifharness/internal/ev"
+	"verifharness/internal/gen"
 	"verifharness/internal/rng"
 )
 
@@ -94,6 +97,34 @@ func c12Worker(args []string) int {
 		if ci%4 == 3 {
 			s.Maintainer = "" // deprecated but valid: deb and ipk print a notice and substitute a placeholder
 		}
+		if ci%4 == 0 {
+			// a payload file beyond one MiB (buffering strategies change with size)
+			nd := c.Tree.Add(&gen.Node{Rel: "src/one-mib-and-a-bit.bin", Kind: "file", Perm: 0o644, MTime: 1111111112, Size: 1<<20 + 4097, Seed: uint64(ci) + 77})
+			_ = c.Tree.Materialize(root)
+			s.Contents = append(s.Contents, &gen.Content{Src: filepath.Join(root, nd.Rel), Dst: "/opt/" + s.Name + "/one-mib-and-a-bit.bin"})
+		}
+		// no package mtime and no SOURCE_DATE_EPOCH: the packagers fall back to the
+		// clock (outputs are then compared for success only)
+		clocked := ci%4 == 2
+		if clocked {
+			s.MTime = 0
+		}
+		// one format collides (an entry tagged for it occupies a path the glob entry
+		// for all formats also produces): it fails, sequentially and concurrently,
+		// while the others are built from the same configuration
+		if ci%4 == 3 {
+			confd := filepath.Join(root, "collide.d")
+			_ = os.MkdirAll(confd, 0o755)
+			for _, n := range []string{"a.conf", "b.conf"} {
+				_ = os.WriteFile(filepath.Join(confd, n), []byte(n+"\n"), 0o644)
+				_ = os.Chtimes(filepath.Join(confd, n), time.Unix(1111111113, 0), time.Unix(1111111113, 0))
+			}
+			bad := []string{"apk", "archlinux", "rpm"}[(ci/4)%3]
+			s.DisableGlobbing = false
+			s.Contents = append(s.Contents,
+				&gen.Content{Src: filepath.Join(confd, "a.conf"), Dst: "/etc/" + s.Name + "-collide/a.conf", Packager: bad},
+				&gen.Content{Src: confd + "/*.conf", Dst: "/etc/" + s.Name + "-collide/", Type: "config"})
+		}
 		signed := ci%3 == 1
 		if signed {
 			s.Deb.Sig.KeyFile = testKey("privkey.asc") // passphrase protected
@@ -101,7 +132,7 @@ func c12Worker(args []string) int {
 			s.APK.Sig.KeyFile = testKey("rsa.priv")
 		}
 		y := s.YAML()
-		isSigned := func(f string) bool { return signed && (f == "deb" || f == "rpm" || f == "apk") }
+		isSigned := func(f string) bool { return clocked || signed && (f == "deb" || f == "rpm" || f == "apk") }
 		// sequential baseline; for three configs out of four it is taken AFTER the concurrent
 		// scenarios, so that those are the first packagings of their kind in the
 		// process (nothing is warmed up by a sequential run)
@@ -114,9 +145,13 @@ func c12Worker(args []string) int {
 				}
 				info, _ := infoFor(&cfg, f)
 				res := packageInfo(f, info)
-				if res.Err != nil || res.Panic != "" {
+				if res.Panic != "" || (res.Err != nil && !errors.Is(res.Err, files.ErrContentCollision)) {
 					rep.Fatal = fmt.Sprintf("sequential build of config %d %s failed: %v %s", ci, f, res.Err, res.Panic)
 					return false
+				}
+				if res.Err != nil {
+					rep.Baseline[fmt.Sprintf("%d/%s", ci, f)] = "EXPECTED-COLLISION"
+					continue
 				}
 				rep.Baseline[fmt.Sprintf("%d/%s", ci, f)] = fmt.Sprintf("%x", sha256.Sum256(res.Bytes))
 			}
@@ -196,8 +231,8 @@ func c12Worker(args []string) int {
 					for g := 0; g < n; g++ {
 						wg.Add(1)
 						f := formats[r.Intn(len(formats))]
-						if g < 6 {
-							f = []string{"deb", "deb", "rpm", "rpm", "archlinux", "archlinux"}[g] // always some goroutines on the same format
+						if g < 10 {
+							f = []string{"deb", "deb", "rpm", "rpm", "archlinux", "archlinux", "ipk", "ipk", "apk", "apk"}[g] // always some goroutines on the same format
 						}
 						go pkg(fmt.Sprintf("c:independent-settings-%d", n), rp, g, f, func() (*nfpm.Info, error) {
 							cfg, err := parseYAML(y, env)
@@ -394,6 +429,12 @@ func c12(run *ev.Run, tier string) {
 				// distinct = distinct (GOMAXPROCS, scenario, format, set of formats in flight with it)
 				run.Case(fmt.Sprintf("%d|%s|%s|%s", g, k.s, e.Format, strings.Join(dedupe(inflight), "+")), len(inflight) > 0)
 				d := map[string]any{"gomaxprocs": g, "config": k.c, "scenario": k.s, "rep": k.rp, "goroutine": e.G, "format": e.Format, "command": cmdline}
+				if rep.Baseline[fmt.Sprintf("%d/%s", k.c, e.Format)] == "EXPECTED-COLLISION" {
+					if e.Err == "" {
+						run.Violate("C12/"+e.Format+"/collision-accepted-when-built-concurrently/"+strings.SplitN(k.s, ":", 2)[0], d)
+					}
+					continue
+				}
 				if e.Err != "" {
 					d["error"] = ev.Short(e.Err, 500)
 					kind := "concurrent-build-failed"
